@@ -398,6 +398,9 @@ func (s *Sim) StepOnce(env []Action, taskWeight int) bool {
 		s.Logf("env %s", a.Key)
 		a.Run()
 	}
+	// quiesce before returning so that the caller's invariants (and the next
+	// phase) never race with the task that was just released.
+	s.Wait()
 	return true
 }
 
